@@ -44,18 +44,20 @@
        says: in interpreter `proc` a value of class `cls` (strict class `det`)
        was tokenised by route `how` and gave token `tok` (tokens and classes are
        interned positive integers).  The registry keeps
-          tokOf : FKey(e) -> [tok, proc]      (must stay a FUNCTION: determinism)
-          clsOf : tok     -> cls              (must stay a function: tokens injective on classes)
-       FKey is the strict class alone for plain data (the token must then also
-       agree between interpreters with different hash seeds) and <<strict class,
-       interpreter>> otherwise, exactly as the statement limits the
-       cross-interpreter promise.  RegStep returns the new registry and the set
+          tokOf : <<strict class, interpreter>> -> tok   (must stay a FUNCTION: determinism
+                                                          inside one interpreter, every route)
+          xtok  : strict class -> tok        (plain data only: the first token each interpreter
+                                              produces must agree with the first one of any
+                                              interpreter - the statement limits the promise
+                                              across hash seeds to plain data)
+          clsOf : tok -> cls                 (must stay a function: tokens injective on classes)  RegStep returns the new registry and the set
        of clauses the observation breaks; TokensMC checks the incremental
        registry against the global definition on all small histories,
        TokensTrace runs it over the observations recorded from dask.          *)
 EXTENDS Naturals, Integers, Sequences, FiniteSets, TLC
 
-CONSTANT Big        \* BOOLEAN: FALSE = quick menus, TRUE = thorough menus
+CONSTANTS Big,      \* BOOLEAN: FALSE = quick menus, TRUE = thorough menus
+          Fams      \* which families of the universe to generate (a set of the names below)
 
 -----------------------------------------------------------------------------
 \* (1) constructors and menus
@@ -115,7 +117,7 @@ Dicts2 == { D(<< <<ky, v>> >>) : ky \in { I(1), S("1"), S("a") }, v \in Inner }
           \cup { St(xs) : xs \in { s \in SeqsFromTo({ TKey2, S("(1,)"), Tu(<<>>), S("()") }, 1, 2) : NoDup(s) } }
 
 \* self-referential containers, and the plain lists that spell dask's back-reference marker
-Recs == { [k |-> "reclist", xs |-> pre, zs |-> post] :
+RecVals == { [k |-> "reclist", xs |-> pre, zs |-> post] :
            pre \in SeqsUpTo({ I(1), I(2) }, 1), post \in SeqsUpTo({ I(1), I(2) }, 1) }
         \cup { [k |-> "recdict", s |-> ky] : ky \in { "a", "b" } }
         \cup { L(<< L(<<S("__seen"), I(n)>>) >>) : n \in 0..2 }
@@ -209,12 +211,37 @@ Pars == { [k |-> "par", fn |-> f, xs |-> a, kv |-> kw] :
                      << <<S("p"), I(1)>>, <<S("q"), I(2)>> >>, << <<S("q"), I(2)>>, <<S("p"), I(1)>> >> } }
 Fns == { [k |-> "fn", fn |-> f] : f \in { "f", "g", "A", "B" } } \cup { [k |-> "lam", i |-> c] : c \in 0..3 }
 
+AllFams == { "scalars", "seqs1", "sets1", "dicts1", "seqs2", "dicts2", "recs", "nds", "mms", "oas", "indexes", "series",
+             "mis", "cats", "eas", "dfs", "dcs", "pars", "fns" }
+Family(fm) == CASE fm = "scalars" -> Scalars [] fm = "seqs1" -> Seqs1 [] fm = "sets1" -> Sets1 [] fm = "dicts1" -> Dicts1
+                [] fm = "seqs2" -> Seqs2 [] fm = "dicts2" -> Dicts2 [] fm = "recs" -> RecVals [] fm = "nds" -> NDs [] fm = "mms" -> MMs
+                [] fm = "oas" -> OAs [] fm = "indexes" -> Indexes [] fm = "series" -> Series [] fm = "mis" -> MIs [] fm = "cats" -> Cats
+                [] fm = "eas" -> EAs [] fm = "dfs" -> DFs [] fm = "dcs" -> DCs [] fm = "pars" -> Pars [] fm = "fns" -> Fns
 \* (TLCEval forces the lazily represented sets / functions into explicit values once)
-Universe == TLCEval(Scalars \cup Seqs1 \cup Sets1 \cup Dicts1 \cup Seqs2 \cup Dicts2 \cup Recs \cup NDs \cup MMs \cup OAs
-                    \cup Indexes \cup Series \cup MIs \cup Cats \cup EAs \cup DFs \cup DCs \cup Pars \cup Fns)
+Universe == TLCEval(UNION { Family(fm) : fm \in Fams })
 
+\* Buckets: a cheap discriminator that observable equality respects (Eqv(a, b, _) => Sig(a) = Sig(b), checked by
+\* TokensMC!SigRespected against the whole kind), so that class representatives are searched in small sets
+SigI(v) == CASE v.k \in { "list", "tuple", "set", "frozenset", "oa", "dc" } -> Len(v.xs)
+             [] v.k = "dict" -> Len(v.kv)
+             [] v.k = "nd"   -> Len(v.shape)
+             [] v.k = "par"  -> Len(v.xs) * 4 + Len(v.kv)
+             [] v.k = "df"   -> Len(v.cols)
+             [] OTHER -> 0
+SigS(v) == CASE v.k \in { "list", "tuple" } -> (IF Len(v.xs) > 0 THEN v.xs[1].k ELSE "")
+             [] v.k = "oa"   -> v.xs[1].k \o (IF v.xs[1].k \in { "str", "bytes" } THEN v.xs[1].s ELSE "")
+             [] v.k = "nd"   -> v.dt
+             [] v.k \in { "ser", "ix" } -> v.nm \o v.dt
+             [] v.k = "dc"   -> v.cls
+             [] v.k = "par"  -> v.fn
+             [] v.k = "df"   -> v.cols[1].dt
+             [] v.k = "cat"  -> v.cats[1]
+             [] OTHER -> ""
+Sig(v) == <<v.k, SigI(v), SigS(v)>>
 Kinds == TLCEval({ v.k : v \in Universe })
 ByKind == TLCEval([kd \in Kinds |-> TLCEval({ v \in Universe : v.k = kd })])
+Sigs == TLCEval({ Sig(v) : v \in Universe })
+Bucket == TLCEval([sg \in Sigs |-> TLCEval({ v \in Universe : Sig(v) = sg })])
 
 -----------------------------------------------------------------------------
 \* (2) observable equality
@@ -258,8 +285,8 @@ Eqv(a, b, st) ==
        [] a.k = "lam"                         -> a.i = b.i
 
 \* class representatives: the first member of the universe (in TLC's fixed enumeration order) that is equivalent
-Rep(v)    == CHOOSE w \in ByKind[v.k] : Eqv(v, w, FALSE)
-DetRep(v) == CHOOSE w \in ByKind[v.k] : Eqv(v, w, TRUE)
+Rep(v)    == CHOOSE w \in Bucket[Sig(v)] : Eqv(v, w, FALSE)
+DetRep(v) == CHOOSE w \in Bucket[Sig(v)] : Eqv(v, w, TRUE)
 
 \* plain data in the sense of the statement: the token must not depend on the interpreter / hash seed
 RECURSIVE Plain(_)
@@ -275,26 +302,28 @@ Hows(v) == { "same", "again", "deepcopy", "pickle" } \cup (IF v.k = "lam" THEN {
 -----------------------------------------------------------------------------
 \* (3) the registry
 
-Unset == 0
-EmptyReg == [tokOf |-> <<>>, clsOf |-> <<>>]       \* functions with growing domain (<<>> = empty function)
+EmptyReg == [tokOf |-> <<>>, xtok |-> <<>>, clsOf |-> <<>>]       \* functions with growing domain (<<>> = empty function)
 
-FKey(e) == e.det * 8 + (IF e.plain THEN 0 ELSE e.proc + 1)      \* interpreters are numbered 0..6
+FKey(e) == e.det * 8 + e.proc          \* interpreters are numbered 0..7
 
 RegStep(reg, e) ==
   IF e.raised THEN [reg |-> reg, bad |-> { "Raised" }]
   ELSE
   LET fk   == FKey(e)
       hadF == fk \in DOMAIN reg.tokOf
+      isX  == e.plain /\ ~hadF                  \* the first observation of a plain class in this interpreter ...
+      hadX == isX /\ e.det \in DOMAIN reg.xtok  \* ... is compared with the first one of any interpreter
       hadI == e.tok \in DOMAIN reg.clsOf
-      badF == IF hadF /\ reg.tokOf[fk].tok # e.tok
-              THEN { IF reg.tokOf[fk].proc # e.proc THEN "DetAcrossInterpreters" ELSE "Det_" \o e.how }
-              ELSE {}
+      badF == IF hadF /\ reg.tokOf[fk] # e.tok THEN { "Det_" \o e.how } ELSE {}
+      badX == IF hadX /\ reg.xtok[e.det] # e.tok THEN { "DetAcrossInterpreters" } ELSE {}
       badI == IF hadI /\ reg.clsOf[e.tok] # e.cls THEN { "Distinct" } ELSE {}
-      tok2 == IF hadF THEN reg.tokOf ELSE (fk :> [tok |-> e.tok, proc |-> e.proc]) @@ reg.tokOf
+      tok2 == IF hadF THEN reg.tokOf ELSE (fk :> e.tok) @@ reg.tokOf
+      xtk2 == IF isX /\ ~hadX THEN (e.det :> e.tok) @@ reg.xtok ELSE reg.xtok
       cls2 == IF hadI THEN reg.clsOf ELSE (e.tok :> e.cls) @@ reg.clsOf
-  IN [reg |-> [tokOf |-> tok2, clsOf |-> cls2], bad |-> badF \cup badI]
+  IN [reg |-> [tokOf |-> tok2, xtok |-> xtk2, clsOf |-> cls2], bad |-> badF \cup badX \cup badI]
 
-\* the global definition the registry implements, on a set of accepted observations
-Functional(es) == \A e1, e2 \in es : FKey(e1) = FKey(e2) => e1.tok = e2.tok
-Injective(es)  == \A e1, e2 \in es : e1.tok = e2.tok => e1.cls = e2.cls
+\* the global definitions the registry implements, on a set of observations
+Functional(es)      == \A e1, e2 \in es : FKey(e1) = FKey(e2) => e1.tok = e2.tok
+PlainFunctional(es) == \A e1, e2 \in es : (e1.plain /\ e1.det = e2.det) => e1.tok = e2.tok
+Injective(es)       == \A e1, e2 \in es : e1.tok = e2.tok => e1.cls = e2.cls
 =============================================================================
